@@ -69,7 +69,7 @@ CHECKS = {
    note="Trusted: the interposer (per-thread deterministic streams, verified active at start). getentropy() is assumed to be the only entropy source of the build.",
    design="4/C18"),
  "C06": dict(level="exploration", engine="libfuzzer", technique="coverage-guided fuzzing (libFuzzer) of 12 C harnesses against the clang ASan + UBSan(bounds, null, object-size, pointer-overflow) build with exact-size heap buffers, deterministic entropy/clock, dictionary and a seed corpus generated by the library itself (incl. replayable TLCP/TLS 1.2/TLS 1.3 transcripts); half of the mutations of the DER-based targets are structure-aware (LLVMFuzzerCustomMutator editing one TLV node and re-encoding all enclosing lengths); harness-side cryptography where the parser sits behind it (plaintext PrivateKeyInfo encrypted by the harness, record plaintext protected by the harness with the fixed traffic keys); boundary-capacity oracle (learn the needed size, offer need and need-1..8); peer-stream harnesses run tls_do_handshake against a pre-written socketpair and check TLS_CONNECT invariants; corpus and regression inputs replayed under MemorySanitizer",
-   text="Every decoding, verifying and printing interface of ASN.1, X.509, CMS, PKCS#8, PEM/base64/hex, SM2/SM9, TLS record/handshake/extension code and every handshake byte stream a client or server of each protocol can receive is searched by mutation of valid objects; any sanitizer report, capacity/invariant violation or confirmed 25 s hang is a violation. The committed regression inputs (fuzz/regress, 28 files) are replayed first. Not exhaustive.",
+   text="Every decoding, verifying and printing interface of ASN.1, X.509, CMS, PKCS#8, PEM/base64/hex, SM2/SM9, TLS record/handshake/extension code and every handshake byte stream a client or server of each protocol can receive is searched by mutation of valid objects; any sanitizer report, capacity/invariant violation or confirmed 25 s hang is a violation. The committed regression inputs (fuzz/regress, 27 files) are replayed first. Not exhaustive.",
    note="Trusted: ASan/UBSan-subset/MSan and the harness preconditions (record buffers exactly 5+length bytes, 2048-byte certificate buffers as the callers use, PBKDF2 iteration counts above 2048 not executed, leaks not reported). TLS 1.3 messages after ServerHello are encrypted: their parsers are reached in clear only through fz_tlsrec; deep authenticated states are additionally reached by the in-flight mutation of C10/C19 under ASan.",
    design="4/C06"),
  "C15": dict(level="exploration", technique="property-based testing (Hypothesis) through ctypes: objects issued through the library's own builders from generated field sets, compared with an independent reference DER encoding and a library-free parse; Python SM2 model for the signatures; stratified and exhaustive single-bit neighbourhoods; membership oracle for CRL lookup",
